@@ -175,6 +175,9 @@ Definition set_user_dup (s : st) (E : env) (a : acct) : bool :=
   || snd (C04.Model.overlap_all 0%Z 0%Z (Z.to_N (aid a)) (C16.Model.u_hosts (a_u a))
             (map (fun b => (Z.to_N (aid b), to4 b)) (s_users s))).
 
+(* ircdb.unWildcardHostmask *)
+Definition unwild (h : str) : str := filter (fun c => negb (mem c [33; 64; 42; 63])) h.
+
 Definition store (s : st) (a : acct) : st :=
   St (put a (s_users s)) (Z.max (s_next s) (aid a)) (s_creator s) (s_chans s) (s_ignores s).
 
@@ -196,7 +199,10 @@ Definition apply_effect (s : st) (E : env) (e : effect) : st :=
       let id := (s_next s + 1)%Z in
       let u0 := C16.Model.User (Some id) [] false false true [] [] [] [] [] in
       let u1 := set_pw (C16.Model.set_name name u0) pw in
-      let u2 := if addmask then C16.Model.set_hosts (C16.Model.iset_add [] (e_prefix E)) u1 else u1 in
+      (* user.addHostmask(msg.prefix): assert isUserHostmask; ValueError under 3 non-wildcard characters.
+         Either exception leaves the account that newUser() stored, named and with its password, without hostmask *)
+      let mask_ok := C16.Model.is_user_hostmask (e_prefix E) && negb (Nat.ltb (List.length (unwild (e_prefix E))) 3) in
+      let u2 := if addmask && mask_ok then C16.Model.set_hosts (C16.Model.iset_add [] (e_prefix E)) u1 else u1 in
       St (put (Acct u2 []) (s_users s)) id (s_creator s) (s_chans s) (s_ignores s)
   | EChan ch c => St (s_users s) (s_next s) (s_creator s) (dict_set (chan_key ch) c (s_chans s)) (s_ignores s)
   | EIgnAdd h =>
@@ -267,7 +273,6 @@ Definition parse_hm (s : st) (E : env) (args : list str) : option (acct * option
       end
   end.
 
-Definition unwild (h : str) : str := filter (fun c => negb (mem c [33; 64; 42; 63])) h.
 
 (* ------------------------------------------------------------------ *)
 (* the commands *)
@@ -768,15 +773,22 @@ Definition nick_ok (nn : str * list str) : bool :=
   C16.Model.token (fst nn) && match snd nn with [] => false | _ => true end
   && forallb (fun n => C16.Model.no_nl_tab n && negb (mem C16.Model.SP n)) (snd nn).
 
-(* an account every field of which (hostmasks apart) is written on lines that are read back as that field *)
+(* an account every field of which is written on lines that are read back as that field (a hostmask: up to one
+   trailing newline) *)
 Definition wf_user (u : C16.Model.user) : bool :=
   match C16.Model.u_id u with Some z => Z.leb 0 z | None => false end
   && C16.Model.safe_field (C16.Model.u_name u) && negb (C16.Model.is_user_hostmask (C16.Model.u_name u))
   && C16.Model.u_hashed u && C16.Model.safe_field (C16.Model.u_password u)
   && forallb addable (C16.Model.u_caps u)
+  && forallb C16.Model.is_user_hostmask (C16.Model.u_hosts u)
   && forallb nick_ok (C16.Model.u_nicks u) && C16.Model.nicks_stable (C16.Model.u_nicks u)
   && forallb C16.Model.safe_field (C16.Model.u_gpg u).
+(* statistics only: every stored hostmask is a single token (false after `user hostmask add "a!b@c\n"`,
+   which isUserHostmask accepts: its `$` tolerates one trailing newline; the reader theorem covers it) *)
 Definition hosts_ok (u : C16.Model.user) : bool := forallb C16.Model.token (C16.Model.u_hosts u).
+(* what a "hostmask" line of users.conf is read back as *)
+Definition strip_lf (h : str) : str :=
+  match rev h with c :: r => if N.eqb c C16.Model.LF then rev r else h | [] => h end.
 
 Definition wf_acct (a : acct) : bool := wf_user (a_u a).
 (* the invariant of the command histories (proved in Inv.v) *)
@@ -786,7 +798,6 @@ Definition wf_state (s : st) : bool :=
      | None => true
      | Some q => match C16.Model.u_id q with Some _ => true | None => false end
      end.
-(* the remaining domain condition of the reload theorem: every stored hostmask is a single token *)
 Definition hosts_dom (s : st) : bool := forallb (fun a => hosts_ok (a_u a)) (s_users s).
 
 (* ------------------------------------------------------------------ *)
